@@ -485,6 +485,9 @@ void do_case(const ev::Cmd& c) {
     for (auto& [k, p] : W.px) p->reset();
     auto manifest = base_manifest(id, P, key, nonce);
     if (has_name) manifest.metadata["filename"] = name;
+    if (var % 2 == 1) {      // the advisory attestation digest vouches for the first hostile hop's bytes: only chunk_hash counts
+        for (const auto& h : chain) if (is_bytes_resp(h.resp) && h.body != P) { const auto d = sha(h.body); std::copy(d.begin(), d.end(), manifest.security.attestation_digest.begin()); break; }
+    }
     std::string local_host = "127.0.0.1";
     std::uint16_t local_port = W.dead.port;     // no local daemon unless the chain has one
     std::uint8_t prio = 0;
